@@ -17,6 +17,29 @@ CHECKS = {
               "2*pi, coordinate and generic axes, |p| up to 1e3.  Sampling, not proof: a violation confined to "
               "inputs outside the generated classes is not seen."),
         ref="DESIGN.md section 5 / C01"),
+    "C03": dict(
+        technique="runtime monitoring: class invariant + pose model after every step of enumerated and random histories",
+        text=("A register machine drives real tm objects through every operation sequence up to length 3 over a "
+              "77-operation alphabet on the property's value palette (thorough: exhaustive, 4.6e5 sequences; quick: "
+              "length <= 2 exhaustive + sampled length 3) and through random histories of length <= 12; after a "
+              "step the monitor reads gTM/gTAA/t[i]/t[a:b] of every object and checks SE(3) membership, position "
+              "and rotation agreement of the two representations (5e-6) and the expected pose of the written "
+              "object.  Exhaustive only inside that scope."),
+        ref="DESIGN.md section 5 / C03"),
+    "C04": dict(
+        technique="runtime monitoring: reference-oracle monitor over generated pose triples and constructor forms",
+        text=("Group-law clauses (@ = matrix product, inv, associativity, tm @ ndarray, localToGlobal/globalToLocal "
+              "and their mutual inverse) and all 13 constructor forms of one pose are compared with scipy-based oracle "
+              "matrices on 2e4 (quick) / 1e6 (thorough) triples with |p| up to 1e3 and angles up to pi-1e-3, boundary "
+              "classes included."),
+        ref="DESIGN.md section 5 / C04"),
+    "C12": dict(
+        technique="runtime monitoring: reference-oracle monitor (own adjoint) over generated frames/operands",
+        text=("Frame-change group action, recorded frame, pairing invariance, p x f moment and zero moment at the "
+              "application point, mixed-frame sums/differences and the vector-space laws are evaluated for Screw and "
+              "Wrench on 1.2e4 (quick) / 6.4e5 (thorough) generated cases covering every operand kind (Python/NumPy "
+              "scalars, 6-arrays, 6x1 arrays, objects) against an oracle built from the frames' published matrices."),
+        ref="DESIGN.md section 5 / C12"),
     "C15": dict(
         technique="runtime monitoring: exact rational oracle, exhaustive lattice enumeration of the real function",
         text=("RRTStar.obstruction is called on real PathNode/tm objects and compared with exact rational slab "
